@@ -14,6 +14,7 @@ import random
 
 from simkit.driver import Check, base_result
 from ref import codec as C
+from checks.worlda import draw_clock_jumps, schedule_clock_jumps, install_func_stalls
 from checks.worldb import (WorldB, APPS, draw_sched_b, draw_knobs_b, LOCAL_HOST,
                            LOCAL_REALM, PEER_HOST, PEER_REALM)
 
@@ -122,9 +123,54 @@ class C14(Check):
             if sched["policy"] in ("random", "sticky", "stall"):
                 sched["policy"] = "line"
                 sched["p_line"] = rng.choice([0.02, 0.1, 0.3])
-        return {"callers": callers, "apps_per_worker": apps_per_worker, "unsolicited": unsolicited,
-                "sched": sched, "knobs": knobs, "stalls": stalls, "horizon": 30.0,
-                "id_boundary": rng.random() < 0.3}
+        scn = {"callers": callers, "apps_per_worker": apps_per_worker, "unsolicited": unsolicited,
+               "sched": sched, "knobs": knobs, "stalls": stalls, "horizon": 30.0,
+               "id_boundary": rng.random() < 0.3}
+        # later additions draw from a generator of their own (the stream above stays what it was)
+        rng2 = random.Random(rng.getrandbits(48))
+        scn["clock_jumps"] = draw_clock_jumps(rng2, span=0.02, p=0.15)
+        # function-entry anchored stalled-thread fault inside the dispatch path: the k-th dispatch is
+        # descheduled j steps (bytecodes, when the run traces bytecodes) after entering the function,
+        # while the callers keep registering and leaving
+        scn["func_stalls"] = []
+        if rng2.random() < 0.5:
+            for _ in range(rng2.choice([1, 1, 2])):
+                scn["func_stalls"].append({
+                    "func": rng2.choice(["Bromelia.handler_pending_answers", "Bromelia.handler_pending_answers",
+                                         "Worker.is_pending_answer", "Worker.get_pending_answer",
+                                         "Worker.remove_pending_answer", "PendingAnswer.notify"]),
+                    "call": rng2.randrange(1, 5), "line": rng2.randrange(0, 70),
+                    "dur": rng2.choice([0.0005, 0.003, 0.02])})
+            if rng2.random() < 0.5:
+                sched["opcode"] = True
+                if not sched.get("p_line"):
+                    sched["p_line"] = 0.01
+        if index % 10 == 4:
+            # a slow peer: one answer takes from half a minute to many minutes; meanwhile other callers come
+            # and go, and the wall clock may be stepped.  Coarse ticks keep the simulated minutes cheap.
+            slow = rng2.choice([31.0, 45.0, 90.0, 400.0, 4000.0])
+            callers[0]["start"] = 0.0
+            callers[0]["reqs"] = callers[0]["reqs"][:1]
+            callers[0]["reqs"][0].update({"fate": "once", "delay": slow, "stall_on_send": 0.0, "stall_after": None})
+            for c in callers[1:]:
+                c["start"] = rng2.choice([0.5, 10.0, 29.0, 31.0, slow - 0.5, slow * 0.5])
+                c["reqs"] = c["reqs"][:2]
+                for r in c["reqs"]:
+                    r.update({"delay": rng2.choice([0.0, 0.01, 0.3, 2.0]), "stall_on_send": 0.0, "stall_after": None})
+            if len(callers) == 1:
+                callers.append({"start": rng2.choice([29.0, 31.0, slow - 0.5]), "reqs": [
+                    {"worker": callers[0]["reqs"][0]["worker"], "fate": "once", "delay": 0.01, "dup_gap": 0.0,
+                     "stall_on_send": 0.0, "stall_after": None, "stall_dur": 0.002}]})
+            scn["stalls"] = []
+            scn["func_stalls"] = []
+            scn["unsolicited"] = []
+            scn["knobs"].update({"BROMELIA_TICKER": 0.02, "PROCESS_TIMER": 0.2, "SEND_THRESHOLD_TICKER": 0.05})
+            scn["clock_jumps"] = [] if rng2.random() < 0.5 else [
+                {"t": rng2.choice([0.5, 5.0, 20.0]), "delta": rng2.choice([-3600.0, 40.0, 3600.0])}]
+            scn["settle"] = slow + 60.0
+            scn["horizon"] = slow + 200.0
+            scn["max_steps"] = 12_000_000
+        return scn
 
     def shrink(self, scn):
         import copy
@@ -179,7 +225,8 @@ class C14(Check):
             sim.stall_plan.setdefault("B:caller%d" % s["caller"], []).append((s["at"], s["dur"]))
         violations = []
         knobs = wb.world.knobs
-        D = 1.0 + 400 * knobs["BROMELIA_TICKER"] + 100 * knobs["PROCESS_TIMER"] + 10 * knobs["SEND_THRESHOLD_TICKER"]
+        D = 1.0 + 400 * knobs["BROMELIA_TICKER"] + 100 * knobs["PROCESS_TIMER"] + 10 * knobs["SEND_THRESHOLD_TICKER"] + \
+            sum(fs["dur"] for fs in scn.get("func_stalls") or ())
         results = {}        # (caller, j) -> record
         req_info = {}       # hbh hex -> info
         stats = {"answers_arrived": 0, "dups": 0, "never": 0, "unsolicited": 0, "max_inflight": 0,
@@ -231,6 +278,8 @@ class C14(Check):
             for st in wb.stubs:
                 st.on_send = on_send
             wb.start()
+            schedule_clock_jumps(sim, scn.get("clock_jumps"))
+            install_func_stalls(sim, scn.get("func_stalls"))
 
             def caller(ci, spec):
                 if spec["start"]:
@@ -295,7 +344,7 @@ class C14(Check):
                         continue
                     return False
                 return True
-            sim.wait_until(all_expected_back, min(6.0, scn["horizon"] - D - 1.0), poll=0.02)
+            sim.wait_until(all_expected_back, min(scn.get("settle", 6.0), scn["horizon"] - D - 1.0), poll=0.02)
             # quiet period: last arrival + D
             last = max([i.get("arrived_at", 0.0) for i in req_info.values()] + [0.0])
             # all requests of still-running callers must have been issued before judging
